@@ -166,7 +166,7 @@ def _record(opname, mk_op, self, other, call, post_self=True):
                             groups.append({"key": NULL if nk is None else rank[col][nk], "tab": tabs[f"G{gi}"]})
                     _count[0] += 1
                     recorder._emit({"kind": "TblOp", "id": f"t{_count[0]}", "op": op, "A": tabs["A"], "B": tabs.get("B", NOTAB),
-                                    "out": {"A": tabs["A2"], "B": tabs.get("B2", NOTAB), "res": tabs.get("R", NOTAB), "err": err, "groups": groups, "groups2": groups}})
+                                    "out": {"A": tabs["A2"], "B": tabs.get("B2", NOTAB), "res": tabs.get("R", NOTAB), "err": err, "groups": groups, "groups2": groups, "earlier_altered": 0}})
                 except Skip as s:
                     recorder._emit({"kind": "TblSkip", "op": opname, "why": str(s)})
                 except Exception as e:  # noqa: BLE001  recording must never disturb the code under test
